@@ -14,6 +14,7 @@ func extra() {
 	accessTable()
 	mapRangeSites()
 	rangerConsts()
+	templateBodies()
 }
 
 // ---- C14: which shared fields are read/written under which locks -----------
@@ -299,4 +300,25 @@ func rangerConsts() {
 	fmt.Printf("Definition groupby_src_a : string := %s.\n\n", q(gb("helpers/iterators/group_by.go", "GroupBy")))
 	fmt.Printf("Definition groupby_src_b : string := %s.\n\n", q(gb("iterators.go", "GroupByHelper")))
 	_ = token.ADD
+}
+
+// ---- C13: the cache and the template life cycle (plush.go, template.go) ------
+// statement-by-statement fingerprints of the functions model/Cache.v transcribes
+func templateBodies() {
+	for _, fl := range []struct{ file, fn, name string }{
+		{"plush.go", "Parse", "plush_Parse"}, {"plush.go", "Render", "plush_Render"},
+		{"template.go", "NewTemplate", "NewTemplate"}, {"template.go", "Parse", "Template_Parse"},
+		{"template.go", "Exec", "Template_Exec"}, {"template.go", "Clone", "Template_Clone"},
+	} {
+		f := parseFile(fl.file)
+		parts := []string{}
+		if fd := findFunc(f, fl.fn); fd != nil && fd.Body != nil {
+			for _, st := range fd.Body.List {
+				parts = append(parts, norm(pr(st)))
+			}
+		} else {
+			parts = append(parts, "UNRECOGNISED:missing "+fl.fn)
+		}
+		fmt.Printf("Definition body_%s : list string := [%s].\n\n", fl.name, joinQ(parts))
+	}
 }
